@@ -117,3 +117,9 @@ Proof.
   rewrite E. apply ip_zero_r.
 Qed.
 Print Assumptions c05_recovers_truth.
+
+(** The remaining source this property rests on is the recorded one (the six solver modules and solver_funcs): whole-function match,
+    regenerated on every run (closes the gap between "the expected statements are present" and "nothing else was added"). *)
+From SymfcG Require Import ShapesSolvers.
+Theorem c05_recorded_sources2_in_force : ShapesSolvers_as_recorded = true.
+Proof. repeat split; reflexivity. Qed.
